@@ -66,7 +66,7 @@ def all_cells():
     # A'': a Logon that lacks a field the Logon processing needs (HeartBtInt, EncryptMethod): no Logon exchange has completed, so
     # the application message behind it (numbered as if the Logon had counted, or not) is not delivered
     for role, st in (("acceptor", "nce"), ("initiator", "logon_sent")):
-        for missing in ("108", "98", "108+98"):
+        for missing in ("108", "98", "108+98", "dup108", "dup98"):
             for rel in (0, 1):
                 for same_read in (False, True):
                     cells.append(("A-badlogon", role, st, missing, rel, same_read))
@@ -264,6 +264,8 @@ async def cell_A_badlogon(acc, clock, cell, cid):
     o = Obs(ep, j)
     s = o.live_in
     body = [(t, v) for t, v in ((98, 0), (108, 30)) if str(t) not in missing.split("+")]
+    if missing.startswith("dup"):        # the field is there twice: just as unusable
+        body = [(98, 0), (108, 30), (int(missing[3:]), 30 if missing == "dup108" else 0)]
     logon = mkframe("A", s, "PEER", "ME", body)
     app = mkframe("D", s + rel, "PEER", "ME", [(11, "early"), (55, "X")])
     if same_read:
